@@ -5,14 +5,14 @@ import Splipy.Model.Sections
 # Six-face `edge_surfaces` at control-net level
 
 `triNet`   : the net formula for faces that already share their bases (blending abscissae `ξ,η,ζ`);
-`c15_triNetModel_eq` : the entry formula of the executable model (`Obj.triNetModel`) is `triNet` when
-             the abscissae are `0` and `1` at the ends (Greville abscissae of open bases on `[0,1]`);
 `c15_triNet_layers`  : the six boundary layers of `triNet` are the six input nets (compatible nets);
 `c15_triNet_eval`    : the tensor-product spline with net `triNet` is the trilinear transfinite blend
              of the face / edge splines and corner points (partition of unity + linear precision).
 -/
 
 set_option linter.unusedSectionVars false
+set_option linter.unusedSimpArgs false
+set_option linter.unusedVariables false
 
 namespace Splipy
 
@@ -37,67 +37,65 @@ def triNet (ξ η ζ : ℕ → K) (nu nv nw : ℕ) (f0 f1 g0 g1 h0 h1 : ℕ → 
   - ((1 - ξ i) * (1 - ζ k) * h0 0 j + (1 - ξ i) * ζ k * h1 0 j
       + ξ i * (1 - ζ k) * h0 (nu-1) j + ξ i * ζ k * h1 (nu-1) j)
 
-/-- The model's entry formula is `triNet` (abscissae `0`/`1` at the ends). -/
-theorem c15_triNetModel_eq [LinearOrder K] [FloorRing K] (ξ η ζ : ℕ → K) (nu nv nw : ℕ)
-    (f0 f1 g0 g1 h0 h1 : ℕ → ℕ → K)
-    (hξ0 : ξ 0 = 0) (hξ1 : ξ (nu-1) = 1) (hη0 : η 0 = 0) (hη1 : η (nv-1) = 1)
-    (hζ0 : ζ 0 = 0) (hζ1 : ζ (nw-1) = 1) (i j k : ℕ) :
-    Obj.triNetModel ξ η ζ nu nv nw f0 f1 g0 g1 h0 h1 i j k
-      = triNet ξ η ζ nu nv nw f0 f1 g0 g1 h0 h1 i j k := by
-  simp only [Obj.triNetModel, triNet, List.foldl_cons, List.foldl_nil, if_true, one_ne_zero, if_false,
-    hξ0, hξ1, hη0, hη1, hζ0, hζ1]
-  ring
-
-/-- Edge compatibility of six face nets (the twelve shared boundary rows). -/
+/-- Edge compatibility of six face nets: the twelve shared boundary rows agree **on the index range of
+    the nets** (`f a` is `nv × nw`, `g b` is `nu × nw`, `h c` is `nu × nv`). -/
 structure NetsCompatible (nu nv nw : ℕ) (f0 f1 g0 g1 h0 h1 : ℕ → ℕ → K) : Prop where
-  fg00 : ∀ k, g0 0 k = f0 0 k
-  fg01 : ∀ k, g1 0 k = f0 (nv-1) k
-  fg10 : ∀ k, g0 (nu-1) k = f1 0 k
-  fg11 : ∀ k, g1 (nu-1) k = f1 (nv-1) k
-  fh00 : ∀ j, h0 0 j = f0 j 0
-  fh01 : ∀ j, h1 0 j = f0 j (nw-1)
-  fh10 : ∀ j, h0 (nu-1) j = f1 j 0
-  fh11 : ∀ j, h1 (nu-1) j = f1 j (nw-1)
-  gh00 : ∀ i, h0 i 0 = g0 i 0
-  gh01 : ∀ i, h1 i 0 = g0 i (nw-1)
-  gh10 : ∀ i, h0 i (nv-1) = g1 i 0
-  gh11 : ∀ i, h1 i (nv-1) = g1 i (nw-1)
+  fg00 : ∀ k, k < nw → g0 0 k = f0 0 k
+  fg01 : ∀ k, k < nw → g1 0 k = f0 (nv-1) k
+  fg10 : ∀ k, k < nw → g0 (nu-1) k = f1 0 k
+  fg11 : ∀ k, k < nw → g1 (nu-1) k = f1 (nv-1) k
+  fh00 : ∀ j, j < nv → h0 0 j = f0 j 0
+  fh01 : ∀ j, j < nv → h1 0 j = f0 j (nw-1)
+  fh10 : ∀ j, j < nv → h0 (nu-1) j = f1 j 0
+  fh11 : ∀ j, j < nv → h1 (nu-1) j = f1 j (nw-1)
+  gh00 : ∀ i, i < nu → h0 i 0 = g0 i 0
+  gh01 : ∀ i, i < nu → h1 i 0 = g0 i (nw-1)
+  gh10 : ∀ i, i < nu → h0 i (nv-1) = g1 i 0
+  gh11 : ∀ i, i < nu → h1 i (nv-1) = g1 i (nw-1)
 
 section layers
 
 variable (ξ η ζ : ℕ → K) (nu nv nw : ℕ) {f0 f1 g0 g1 h0 h1 : ℕ → ℕ → K}
-  (hc : NetsCompatible nu nv nw f0 f1 g0 g1 h0 h1)
+  (hc : NetsCompatible nu nv nw f0 f1 g0 g1 h0 h1) (hu : 1 ≤ nu) (hv : 1 ≤ nv) (hw : 1 ≤ nw)
 
-include hc
+include hc hu hv hw
 
-theorem c15_triNet_i0 (hξ : ξ 0 = 0) (j k : ℕ) :
+theorem c15_triNet_i0 (hξ : ξ 0 = 0) (j k : ℕ) (hj : j < nv) (hk : k < nw) :
     triNet ξ η ζ nu nv nw f0 f1 g0 g1 h0 h1 0 j k = f0 j k := by
-  simp only [triNet, hξ, hc.fg00, hc.fg01, hc.fh00, hc.fh01]
+  simp only [triNet, hξ, hc.fg00 k hk, hc.fg01 k hk, hc.fg00 0 (by omega), hc.fg01 0 (by omega),
+    hc.fg00 (nw-1) (by omega), hc.fg01 (nw-1) (by omega)]
   ring
 
-theorem c15_triNet_ilast (hξ : ξ (nu-1) = 1) (j k : ℕ) :
+theorem c15_triNet_ilast (hξ : ξ (nu-1) = 1) (j k : ℕ) (hj : j < nv) (hk : k < nw) :
     triNet ξ η ζ nu nv nw f0 f1 g0 g1 h0 h1 (nu-1) j k = f1 j k := by
-  simp only [triNet, hξ, hc.fg10, hc.fg11, hc.fh10, hc.fh11]
+  simp only [triNet, hξ, hc.fg10 k hk, hc.fg11 k hk, hc.fg10 0 (by omega), hc.fg11 0 (by omega),
+    hc.fg10 (nw-1) (by omega), hc.fg11 (nw-1) (by omega)]
   ring
 
-theorem c15_triNet_j0 (hη : η 0 = 0) (i k : ℕ) :
+theorem c15_triNet_j0 (hη : η 0 = 0) (i k : ℕ) (hi : i < nu) (hk : k < nw) :
     triNet ξ η ζ nu nv nw f0 f1 g0 g1 h0 h1 i 0 k = g0 i k := by
-  simp only [triNet, hη, hc.gh00, hc.gh01, ← hc.fg00, ← hc.fg10]
+  simp only [triNet, hη, hc.gh00 i hi, hc.gh01 i hi, hc.gh00 0 (by omega), hc.gh01 0 (by omega),
+    hc.gh00 (nu-1) (by omega), hc.gh01 (nu-1) (by omega), ← hc.fg00 k hk, ← hc.fg10 k hk,
+    ← hc.fg00 0 (by omega), ← hc.fg10 0 (by omega), ← hc.fg00 (nw-1) (by omega), ← hc.fg10 (nw-1) (by omega)]
   ring
 
-theorem c15_triNet_jlast (hη : η (nv-1) = 1) (i k : ℕ) :
+theorem c15_triNet_jlast (hη : η (nv-1) = 1) (i k : ℕ) (hi : i < nu) (hk : k < nw) :
     triNet ξ η ζ nu nv nw f0 f1 g0 g1 h0 h1 i (nv-1) k = g1 i k := by
-  simp only [triNet, hη, hc.gh10, hc.gh11, ← hc.fg01, ← hc.fg11]
+  simp only [triNet, hη, hc.gh10 i hi, hc.gh11 i hi, hc.gh10 0 (by omega), hc.gh11 0 (by omega),
+    hc.gh10 (nu-1) (by omega), hc.gh11 (nu-1) (by omega), ← hc.fg01 k hk, ← hc.fg11 k hk,
+    ← hc.fg01 0 (by omega), ← hc.fg11 0 (by omega), ← hc.fg01 (nw-1) (by omega), ← hc.fg11 (nw-1) (by omega)]
   ring
 
-theorem c15_triNet_k0 (hζ : ζ 0 = 0) (i j : ℕ) :
+theorem c15_triNet_k0 (hζ : ζ 0 = 0) (i j : ℕ) (hi : i < nu) (hj : j < nv) :
     triNet ξ η ζ nu nv nw f0 f1 g0 g1 h0 h1 i j 0 = h0 i j := by
-  simp only [triNet, hζ, ← hc.gh00, ← hc.gh10, ← hc.fh00, ← hc.fh10]
+  simp only [triNet, hζ, ← hc.gh00 i hi, ← hc.gh10 i hi, ← hc.fh00 j hj, ← hc.fh10 j hj,
+    ← hc.fh00 0 (by omega), ← hc.fh10 0 (by omega), ← hc.fh00 (nv-1) (by omega), ← hc.fh10 (nv-1) (by omega)]
   ring
 
-theorem c15_triNet_klast (hζ : ζ (nw-1) = 1) (i j : ℕ) :
+theorem c15_triNet_klast (hζ : ζ (nw-1) = 1) (i j : ℕ) (hi : i < nu) (hj : j < nv) :
     triNet ξ η ζ nu nv nw f0 f1 g0 g1 h0 h1 i j (nw-1) = h1 i j := by
-  simp only [triNet, hζ, ← hc.gh01, ← hc.gh11, ← hc.fh01, ← hc.fh11]
+  simp only [triNet, hζ, ← hc.gh01 i hi, ← hc.gh11 i hi, ← hc.fh01 j hj, ← hc.fh11 j hj,
+    ← hc.fh01 0 (by omega), ← hc.fh11 0 (by omega), ← hc.fh01 (nv-1) (by omega), ← hc.fh11 (nv-1) (by omega)]
   ring
 
 end layers
